@@ -450,3 +450,5 @@ def run(report, repo):
   report.guard(r3_commands, report, repo)
   report.guard(r4_transfer, report, repo)
   report.guard(r5_progress, report, repo)
+  from sa.rules import extra4  # pylint: disable=g-import-not-at-top
+  report.guard(extra4.progress_shield_in_loop, report, repo, 'C16-R6')
